@@ -107,7 +107,7 @@ def gen_history(rnd, nops, prune=None, batch_p=0.25, kind=None, abort_p=0.35, un
             diff += [["del", k, rnd.randrange(2)] for k in sorted(cur) if k not in target]
             if 0 < len(diff) <= 5:
                 rnd.shuffle(diff)
-                if rnd.random() < 0.6:
+                if batch_p > 0 and rnd.random() < 0.6:
                     ops.append(["batch", diff, None])
                     note(ops[-1])
                 else:
